@@ -68,6 +68,10 @@ class EngineC08(HistEngine):
         g = gen_call.CallGen(ch, cfg, str(index % 100000))
         nfun = ch.randint(1, 4, "nfun")
         funcs = [g.gen_function() for _ in range(nfun)]
+        if ch.chance(1, 3, "clone"):
+            twin = g.clone_with_other_return_type(ch.choice(funcs, "clone-of"))
+            if twin is not None:
+                funcs.append(twin)
         callers = [g.gen_caller() for _ in range(ch.randint(1, 4, "ncall"))]
         for _ in range(ch.randint(0, 2, "nfixed")):
             t = ch.choice(FIXED_CALLERS, "fixed")
@@ -109,6 +113,13 @@ class EngineC08(HistEngine):
         for _ in range(ch.randint(0, 8, "warmup")):
             ops.append({"op": "stmt", "inst": ch.draw(len(insts), "winst"), "code": ch.choice(WARMUP, "warm")})
         reg_ops(late)
+        byref = [f for f in funcs if f["kind"] in ("void_write", "ext_write_ret")]
+        if byref and ch.chance(1, 5, "deep-failure"):
+            # a statement rejected for its depth (RecursionError out of the tree walk, not out of a callback) *after* a
+            # by-reference call of it was collected: nothing of it may run with a later statement
+            f = ch.choice(byref, "deepf")
+            callt = cref.show_expr(("call", f["name"], gen_call.CallGen.byref_args(f, ("reg", "RtV", ("s", 32))))) + ";"
+            ops.append({"op": "stmt", "inst": ch.draw(len(insts), "dinst"), "code": "{ " + callt + " RxV = 1" + " + 1" * 560 + "; }"})
         if ch.chance(1, 4, "failure"):
             if ch.chance(1, 2, "natural"):
                 ops.append({"op": "stmt", "inst": ch.draw(len(insts), "finst"), "code": ch.choice(gen_beh.failing_behaviours(), "fail")})
@@ -397,6 +408,13 @@ class EngineC08(HistEngine):
                         if name.startswith("@"):
                             return run["written"].get({"RdV": "Rd_op"}.get(name[1:], name[1:]))
                         return run["locals"].get(name)
+                    expected_regs = {{"RdV": "Rd_op"}.get(k_[1:], k_[1:]) for k_ in want if k_.startswith("@")}
+                    extra = sorted(set(scoped["written"]) - expected_regs)
+                    if extra:
+                        V.append(Violation("C08", "convention", "unexpected-register-write", cfg,
+                                           {"caller": c["text"], "registers": extra, "expected": sorted(expected_regs)}, step))
+                        conv_done = True
+                        continue
                     for name, t in c["outs"]:
                         got = observed(scoped, name)
                         w = (t[1], cref.bits(want[name][1], t))
